@@ -53,8 +53,10 @@ def check(run: Run) -> None:
     vs = cls.methods.get("visit_Subscript")
     if vs is None:
         raise AnalysisError("anchor vanished: simplify_chained_calls.visit_Subscript")
+    from ..normalise import unrolled
     from ..visitors import projection_handlers
 
+    vs = unrolled(m, vs)
     hmap, _tests = projection_handlers(m, ctx, cls, vs)
     run.floor("C18.R1", len(hmap), 3, "literal projection handlers reached from visit_Subscript")
     handlers = []
